@@ -56,8 +56,41 @@ inductive Fn where
   | strlen | substr | charfromstr | strstr | upstring | lowstring
 deriving DecidableEq, Repr
 
+/-! ### string constants written with escape sequences (section "String Constants")
+
+A string constant of the source text is a sequence of *items*: characters that stand for themselves and the
+escape sequences the manual lists.  The item list is the abstract syntax; `Item.text` is how an item is
+written, `Item.chars` the characters it denotes (both below, after the integer semantics). -/
+
+/-- the abbreviations `\b \a \e \t \n \r \\ \' \"` and the letter forms `\H` (apostrophe), `\I` (quotation mark) -/
+inductive Ctl where
+  | bs | bel | esc | tab | lf | cr | bslash | apos | quot | aposH | quotI
+deriving DecidableEq, Repr
+
+/-- operators used inside the `\{…}` of a generated string constant (total on 64-bit integers) -/
+inductive BraceOp where
+  | add | sub | mul | and | or | xor
+deriving DecidableEq, Repr
+
+inductive Item where
+  /-- a character that stands for itself -/
+  | plain (c : Char)
+  /-- an abbreviation; "both upper and lower case characters may be used for the identification letters" -/
+  | ctl (k : Ctl) (upper : Bool)
+  /-- backslash + decimal number "of three digits maximum" (a decimal number does not begin with 0: that is the octal prefix) -/
+  | dec (v : Nat)
+  /-- backslash + `x` + one or two hexadecimal digits ("the maximum number of digits is limited to 2") -/
+  | hex (v : Nat) (two upX upD : Bool)
+  /-- backslash + `0` + up to three octal digits -/
+  | oct (v : Nat) (width : Nat)
+  /-- `\{a}` / `\{a op b}`: a formula expression worked into the string -/
+  | brace (o : Option BraceOp) (a b : W)
+deriving DecidableEq
+
 inductive Formula where
   | lit (v : Val)
+  /-- a string (`dq`: in double quotes) or character constant written with the given items -/
+  | sc (dq : Bool) (items : List Item)
   | un (u : UnOp) (e : Formula)
   | bin (o : BinOp) (l r : Formula)
   | fn1 (f : Fn) (a : Formula)
@@ -442,6 +475,118 @@ def specFn (f : Fn) (args : List Val) : Except Err Val :=
   | .error e => .error e
   | .ok as => specFnCore f as
 
+def hexDigit (n : Nat) : Char := "0123456789ABCDEF".toList.getD n '?'
+
+def natDigits (base : Nat) : Nat → Nat → List Char
+  | 0, _ => []
+  | fuel + 1, n => if n < base then [hexDigit n] else natDigits base fuel (n / base) ++ [hexDigit (n % base)]
+
+/-- integer literal: decimal below 2^63, Motorola `$hex` above (the correspondence runs on a target with
+Motorola syntax) -/
+def renderInt (v : W) : List Char :=
+  if v.toNat < 2 ^ 63 then natDigits 10 64 v.toNat else '$' :: natDigits 16 64 v.toNat
+
+/-! ## string constants with escape sequences (section "String Constants")
+
+"The assembler understands a backslash with a following decimal number of three digits maximum in the
+string as a character with the according decimal ASCII value.  The numerical value may alternatively be
+written in hexadecimal or octal notation if it is prefixed with an x resp. a 0.  In case of hexadecimal
+notation, the maximum number of digits is limited to 2."  Then the table of abbreviations, and `\{…}`. -/
+
+/-- the character an abbreviation stands for -/
+def Ctl.code : Ctl → Nat
+  | .bs => 8 | .bel => 7 | .esc => 27 | .tab => 9 | .lf => 10 | .cr => 13
+  | .bslash => 92 | .apos | .aposH => 39 | .quot | .quotI => 34
+
+/-- the identification letter (lower case) -/
+def Ctl.letter : Ctl → Char
+  | .bs => 'b' | .bel => 'a' | .esc => 'e' | .tab => 't' | .lf => 'n' | .cr => 'r'
+  | .bslash => '\\' | .apos => '\'' | .quot => '"' | .aposH => 'h' | .quotI => 'i'
+
+def BraceOp.spelling : BraceOp → List Char
+  | .add => ['+'] | .sub => ['-'] | .mul => ['*'] | .and => ['&'] | .or => ['|'] | .xor => ['!']
+
+/-- value of the formula inside `\{…}` (sum, difference, product, binary AND / OR / XOR of the table) -/
+def braceVal : Option BraceOp → W → W → W
+  | none, a, _ => a
+  | some .add, a, b => wrap (a.toInt + b.toInt)
+  | some .sub, a, b => wrap (a.toInt - b.toInt)
+  | some .mul, a, b => wrap (a.toInt * b.toInt)
+  | some .and, a, b => a &&& b
+  | some .or, a, b => a ||| b
+  | some .xor, a, b => a ^^^ b
+
+/-- `n` written with exactly `width` digits (leading zeros) when it has fewer -/
+def digitsPad (base width n : Nat) : List Char :=
+  List.replicate (width - (natDigits base 64 n).length) '0' ++ natDigits base 64 n
+
+def lowLetter (c : Char) : Char := if 'A' ≤ c ∧ c ≤ 'Z' then Char.ofNat (c.toNat + 32) else c
+def upLetter (c : Char) : Char := if 'a' ≤ c ∧ c ≤ 'z' then Char.ofNat (c.toNat - 32) else c
+
+/-- how an item is written -/
+def Item.text : Item → List Char
+  | .plain c => [c]
+  | .ctl k up => ['\\', if up then upLetter k.letter else k.letter]
+  | .dec v => '\\' :: natDigits 10 64 v
+  | .hex v two upX upD =>
+    ['\\', if upX then 'X' else 'x'] ++ (digitsPad 16 (if two then 2 else 1) v).map (if upD then id else lowLetter)
+  | .oct v w => ['\\', '0'] ++ (if w = 0 then [] else digitsPad 8 w v)
+  | .brace none a _ => ['\\', '{'] ++ renderInt a ++ ['}']
+  | .brace (some o) a b => ['\\', '{'] ++ renderInt a ++ o.spelling ++ renderInt b ++ ['}']
+
+/-- **the characters an item denotes**.  READING for `\{…}`: "Integer results will by default be written in
+hexadecimal notation, which may be changed via the OUTRADIX instruction" - the correspondence runs under
+`OUTRADIX 10`; the digits are those of the 64-bit pattern (the generator keeps these results below 2^63, so the
+question of a sign does not arise). -/
+def Item.chars : Item → List Char
+  | .plain c => [c]
+  | .ctl k _ => [Char.ofNat k.code]
+  | .dec v => [Char.ofNat v]
+  | .hex v _ _ _ => [Char.ofNat v]
+  | .oct v _ => [Char.ofNat v]
+  | .brace o a b => natDigits 10 64 (braceVal o a b).toNat
+
+/-- `0`..`9` (character codes 48..57) -/
+def isDecDigit (c : Char) : Bool := decide (48 ≤ c.toNat ∧ c.toNat ≤ 57)
+/-- `0`..`9`, `a`..`f` (97..102), `A`..`F` (65..70) -/
+def isHexDigitC (c : Char) : Bool :=
+  isDecDigit c || decide (97 ≤ c.toNat ∧ c.toNat ≤ 102) || decide (65 ≤ c.toNat ∧ c.toNat ≤ 70)
+
+/-- an item is written as the manual allows: a self-denoting character is neither the backslash nor the
+enclosing quotation mark (and printable ASCII); a decimal number has one to three digits and a value a
+character can have; one or two hexadecimal digits; up to three octal digits behind the prefix `0` -/
+def Item.wf (q : Char) : Item → Bool
+  | .plain c => c != '\\' && c != q && decide (32 ≤ c.toNat) && decide (c.toNat < 127)
+  | .ctl _ _ => true
+  | .dec v => decide (1 ≤ v) && decide (v ≤ 255)
+  | .hex v two _ _ => if two then decide (v < 256) else decide (v < 16)
+  | .oct v w => decide (w ≤ 3) && decide (v < 8 ^ w) && decide (v < 256)
+  | .brace _ _ _ => true
+
+/-- may the character `c` follow the item without becoming part of its number?  A number written with
+fewer digits than the maximum ends at the first character that is not a digit; written with the maximum
+number of digits it ends there - whatever follows (`"\x0a0"` is LF followed by `0`). -/
+def Item.okBefore : Item → Char → Bool
+  | .dec v, c => decide (v ≥ 100) || !isDecDigit c
+  | .hex _ two _ _, c => two || !isHexDigitC c
+  | .oct _ w, c => decide (w ≥ 3) || !isDecDigit c
+  | _, _ => true
+
+/-- well-formed item list: every item is, and no number written short is followed by a digit -/
+def wfItems (q : Char) : List Item → Bool
+  | [] => true
+  | i :: rest =>
+    i.wf q && (match rest with
+      | [] => true
+      | j :: _ => match j.text with | c :: _ => i.okBefore c | [] => true) && wfItems q rest
+
+/-- **the documented character sequence of a string constant** -/
+def decodeItems (items : List Item) : List Char := items.flatMap Item.chars
+
+def renderItems (items : List Item) : List Char := items.flatMap Item.text
+
+def quoteOf (dq : Bool) : Char := if dq then '"' else '\''
+
 /-! ## evaluation: a structural fold, parametrised by the operator/function semantics -/
 
 structure Sem where
@@ -453,6 +598,7 @@ structure Sem where
 errors is reported, the order chosen here is the one observed. Function arguments left to right. -/
 def evalWith (s : Sem) : Formula → Except Err Val
   | .lit v => .ok v
+  | .sc _ items => .ok (.str (decodeItems items))
   | .un u e =>
     match evalWith s e with
     | .error x => .error x
@@ -496,17 +642,6 @@ def Formula.rootRank : Formula → Nat
   | .bin o _ _ => o.rank
   | _ => 0
 
-def hexDigit (n : Nat) : Char := "0123456789ABCDEF".toList.getD n '?'
-
-def natDigits (base : Nat) : Nat → Nat → List Char
-  | 0, _ => []
-  | fuel + 1, n => if n < base then [hexDigit n] else natDigits base fuel (n / base) ++ [hexDigit (n % base)]
-
-/-- integer literal: decimal below 2^63, Motorola `$hex` above (the correspondence runs on a target with
-Motorola syntax) -/
-def renderInt (v : W) : List Char :=
-  if v.toNat < 2 ^ 63 then natDigits 10 64 v.toNat else '$' :: natDigits 16 64 v.toNat
-
 /-- float literal `d.dddddd` for multiples of 1/64 (the literal pool of the correspondence) -/
 def renderFloat (x : Float) : List Char :=
   let neg := x < 0.0
@@ -535,6 +670,7 @@ def paren (b : Bool) (t : List Char) : List Char := if b then ['('] ++ t ++ [')'
 right.  A negative literal counts as a sign applied to a literal. -/
 def render : Formula → List Char
   | .lit v => renderVal v
+  | .sc dq items => [quoteOf dq] ++ renderItems items ++ [quoteOf dq]
   | .un u e => u.spelling ++ paren (u.rank ≤ e.rootRank) (render e)
   | .bin o l r =>
     paren (o.rank < l.rootRank) (render l) ++ o.spelling ++ paren (o.rank ≤ r.rootRank) (render r)
@@ -557,6 +693,7 @@ def renderValSq : Val → List Char
 
 def renderSq : Formula → List Char
   | .lit v => renderValSq v
+  | .sc dq items => [quoteOf dq] ++ renderItems items ++ [quoteOf dq]
   | .un u e => u.spelling ++ paren (u.rank ≤ e.rootRank) (renderSq e)
   | .bin o l r =>
     paren (o.rank < l.rootRank) (renderSq l) ++ o.spelling ++ paren (o.rank ≤ r.rootRank) (renderSq r)
